@@ -40,6 +40,7 @@ func checkC14(c *Ctx, r *Report) {
 	w := c.W
 	defer checkExactMembership(c, r, "C14.b")
 	defer checkTypeSwitchArms(c, r, "C14.b")
+	defer checkEndpointsResolvedLast(c, r, "C14.b")
 	r.NotDecided = append(r.NotDecided, "panics inside third-party libraries on exotic inputs", "resource exhaustion; hangs inside `go list` / go/packages", "arbitrary computed indexes (only constant indexes and search-result slice bounds are inventoried)", "user-supplied template overrides")
 	r.Assume = append(r.Assume, "the call graph used for recursion is static callees + interface invokes resolved to every gleece method implementing the interface", "a branch fact dominates a site if the site's block is dominated by the branch edge (intraprocedural)")
 	tbl, err := loadCrashTables(c.VerifDir)
